@@ -1,11 +1,584 @@
 package main
 
-import (
-	"math/rand"
+// code -> spec: seeded random MULTI-setting configurations with ugly concrete values.
+//
+// A scenario configures one component with several settings at once, each setting from a
+// random combination of sources (absent / valid / ill-formed kinds, the same vocabulary as
+// MC_ConfigPrecedence.tla), runs the real code once and records, per setting, the abstract
+// sources and the projected observation.  One ndjson line per scenario:
+//
+//	{"ev":"Cfg","sc":n,"kind":"exporter|tracer|logger|bsp|blrp","comp":..,
+//	 "cases":[{"fam","comp","setting","srcs":[{k,v}..],"obs":[..],"detail":..,"env":[..],"opt":..}]}
+//
+// Trace_ConfigPrecedence.tla decides (AllowedFor) whether each observation is admissible.
+// Nothing here knows what the expected outcome is.
 
+import (
+	"context"
+	"fmt"
+	"math/rand"
+	"os"
+	"strings"
+	"time"
+
+	"go.opentelemetry.io/otel/attribute"
+	otellog "go.opentelemetry.io/otel/log"
+	sdklog "go.opentelemetry.io/otel/sdk/log"
+	sdktrace "go.opentelemetry.io/otel/sdk/trace"
 	"go.opentelemetry.io/otel/sdk/verifh/vh"
+	"go.opentelemetry.io/otel/trace"
 )
 
+type caseObs struct {
+	Fam     string   `json:"fam"`
+	Comp    string   `json:"comp"`
+	Setting string   `json:"setting"`
+	Srcs    []Src    `json:"srcs"`
+	Obs     []string `json:"obs"`
+	Detail  string   `json:"detail"`
+	Env     []string `json:"env"`
+	Opt     string   `json:"opt"`
+}
+
+var (
+	absent = Src{K: "absent"}
+	unobs  = []string{"unobservable"}
+)
+
+func valid(v string) Src { return Src{K: "valid", V: v} }
+
+// weighted choice: the first len(w)-1 weights are percentages, the rest is uniform over tail
+func choose(r *rand.Rand, pAbsent, pValid int, validSrc func() Src, bad []Src) Src {
+	x := r.Intn(100)
+	switch {
+	case x < pAbsent:
+		return absent
+	case x < pAbsent+pValid:
+		return validSrc()
+	}
+	return bad[r.Intn(len(bad))]
+}
+
+func numEnvSrc(r *rand.Rand, id string) Src {
+	return choose(r, 30, 30, func() Src { return valid(id) }, []Src{
+		{K: "nonnum"}, {K: "neg"}, {K: "zero"}, {K: "float"}, {K: "overflow"}, {K: "padded", V: id}})
+}
+
+func numOptSrc(r *rand.Rand) Src {
+	return choose(r, 45, 35, func() Src { return valid("O") }, []Src{{K: "zero"}, {K: "neg"}})
+}
+
+var envPaths = []string{"", "/", "/s", "/s/", "/col/lect", "/x/y/z/", "/v1/traces", "/otlp-http"}
+
+func urlEnvSrc(r *rand.Rand, http bool) Src {
+	return choose(r, 35, 40, func() Src {
+		if !http {
+			return Src{K: "url", V: []string{"", "/"}[r.Intn(2)]}
+		}
+		return Src{K: "url", V: envPaths[r.Intn(len(envPaths))]}
+	}, []Src{{K: "unparsable"}, {K: "noscheme"}, {K: "pathonly", V: "/p"}})
+}
+
+func urlOptSrc(r *rand.Rand, http bool) Src {
+	if !http {
+		return choose(r, 40, 45, func() Src {
+			return []Src{{K: "host"}, {K: "url", V: ""}}[r.Intn(2)]
+		}, []Src{{K: "badurl"}})
+	}
+	return choose(r, 40, 45, func() Src {
+		return []Src{{K: "host"}, {K: "path", V: "/o"}, {K: "path", V: "/o/"}, {K: "path", V: "/deep/er/o"}, {K: "hostpath", V: "/o"},
+			{K: "url", V: ""}, {K: "url", V: "/"}, {K: "url", V: "/o"}, {K: "url", V: "/o/"}}[r.Intn(9)]
+	}, []Src{{K: "badurl"}})
+}
+
+func hdrEnvSrc(r *rand.Rand, id string) Src {
+	return choose(r, 35, 35, func() Src { return valid(id) }, []Src{{K: "garbage"}, {K: "partial", V: id}, {K: "badkey"}})
+}
+
+func cmpEnvSrc(r *rand.Rand) Src {
+	return choose(r, 35, 35, func() Src { return valid([]string{"gzip", "none"}[r.Intn(2)]) },
+		[]Src{{K: "unknown"}, {K: "case", V: "gzip"}})
+}
+
+// ---------------------------------------------------------------- exporter scenarios
+
+func exporterScenario(r *rand.Rand, conc *Conc, res *vh.Result) (string, []caseObs) {
+	comps := []string{"otlptracehttp", "otlptracegrpc", "otlpmetrichttp", "otlpmetricgrpc", "otlploghttp", "otlploggrpc"}
+	comp := comps[r.Intn(len(comps))]
+	http := isHTTP(comp)
+	sc := expScenario{comp: comp}
+	// every setting is exercised with probability 3/4
+	if r.Intn(4) > 0 {
+		sc.endpoint = []Src{urlOptSrc(r, http), urlEnvSrc(r, http), urlEnvSrc(r, http)}
+	}
+	if r.Intn(4) > 0 {
+		o := choose(r, 50, 50, func() Src { return valid([]string{"mO", "none"}[r.Intn(2)]) }, nil)
+		sc.headers = []Src{o, hdrEnvSrc(r, "mS"), hdrEnvSrc(r, "mG")}
+	}
+	if r.Intn(4) > 0 {
+		bad := Src{K: "unknown"}
+		if http {
+			bad = Src{K: "badenum"}
+		}
+		o := choose(r, 50, 40, func() Src { return valid([]string{"gzip", "none"}[r.Intn(2)]) }, []Src{bad})
+		sc.compr = []Src{o, cmpEnvSrc(r), cmpEnvSrc(r)}
+	}
+	if r.Intn(4) > 0 {
+		sc.timeout = []Src{numOptSrc(r), numEnvSrc(r, "S"), numEnvSrc(r, "G")}
+	}
+	ob := runExporterScenario(sc, conc)
+	var out []caseObs
+	add := func(fam, setting string, srcs []Src, obs []string) {
+		if srcs == nil {
+			return
+		}
+		d := errText(ob.err)
+		if ob.special != "" {
+			d = ob.phase + ": " + d
+		}
+		if len(obs) == 1 && obs[0] == "HANG" {
+			res.Inconcl(fmt.Sprintf("watchdog expired: %s %s env=%v opt=%s\n%s", comp, setting, ob.env, ob.opt, d))
+			obs = unobs
+		}
+		if len(d) > 400 {
+			d = d[:400]
+		}
+		out = append(out, caseObs{Fam: fam, Comp: comp, Setting: setting, Srcs: srcs, Obs: obs, Detail: d, Env: ob.env, Opt: ob.opt})
+	}
+	add("endpoint", "endpoint", sc.endpoint, ob.endpoint)
+	add("scalar", "headers", sc.headers, ob.headers)
+	add("scalar", "compression", sc.compr, ob.compr)
+	add("scalar", "timeout", sc.timeout, ob.timeout)
+	if ob.special == "PANIC" {
+		res.Count("random.exporter.panic", 1)
+	}
+	if ob.n > 0 {
+		res.Count("random.exporter.delivered", 1)
+	} else {
+		res.Count("random.exporter.not_delivered", 1)
+	}
+	res.Count(fmt.Sprintf("random.exporter.settings=%d", len(out)), 1)
+	return comp, out
+}
+
+// ---------------------------------------------------------------- tracer provider scenarios
+
+var spanLimitSettings = []string{"span.attr_count", "span.attr_len", "span.event_count", "span.link_count",
+	"span.event_attr_count", "span.link_attr_count"}
+
+type limPlan struct {
+	setting string
+	srcs    []Src
+	env     [][2]string
+	optV    int
+	hasOpt  bool
+}
+
+func planLimits(r *rand.Rand, conc *Conc, settings []string, p int) []limPlan {
+	var out []limPlan
+	for _, st := range settings {
+		if r.Intn(100) >= p {
+			continue
+		}
+		names := sdkEnvNames[st]
+		lp := limPlan{setting: st, srcs: []Src{numOptSrc(r)}}
+		for i, n := range names {
+			s := numEnvSrc(r, []string{"S", "G"}[i])
+			lp.srcs = append(lp.srcs, s)
+			if v, ok := conc.envNum(st, s); ok {
+				lp.env = append(lp.env, [2]string{n, v})
+			}
+		}
+		lp.optV, lp.hasOpt = conc.optNum(st, lp.srcs[0])
+		out = append(out, lp)
+	}
+	return out
+}
+
+// samplerPlan: abstract sources and their concrete form
+type samplerPlan struct {
+	srcs []Src
+	env  [][2]string
+}
+
+func planSampler(r *rand.Rand, conc *Conc) samplerPlan {
+	names := []string{"always_on", "always_off", "traceidratio", "parentbased_always_on", "parentbased_always_off", "parentbased_traceidratio"}
+	opt := choose(r, 60, 25, func() Src { return valid("traceidratio:R50") }, []Src{{K: "nil"}})
+	name := choose(r, 20, 50, func() Src { return valid(names[r.Intn(len(names))]) },
+		[]Src{{K: "unknown"}, {K: "empty"}, {K: "case", V: "always_off"}, {K: "case", V: "traceidratio"}})
+	arg := choose(r, 35, 35, func() Src { return valid([]string{"R25", "R0"}[r.Intn(2)]) },
+		[]Src{{K: "nonnum"}, {K: "neg"}, {K: "gt1"}, {K: "empty"}})
+	sp := samplerPlan{srcs: []Src{opt, name, arg}}
+	if v, ok := samplerNameEnv(name, conc); ok {
+		sp.env = append(sp.env, [2]string{"OTEL_TRACES_SAMPLER", v})
+	}
+	if v, ok := samplerArgEnv(arg, conc); ok {
+		sp.env = append(sp.env, [2]string{"OTEL_TRACES_SAMPLER_ARG", v})
+	}
+	return sp
+}
+
+// runTracer builds ONE TracerProvider from the sampler plan and the limit plans (restricted to
+// `only` when non-empty), takes the sampling decisions for the probe ids and exports one span
+// that offers more of everything than any configured limit.
+func runTracer(sp *samplerPlan, lims []limPlan, conc *Conc) (special, detail string, samplerObs []string, limObs map[string][]string, env []string, opt string) {
+	clearEnv()
+	defer clearEnv()
+	setenv := func(kv [2]string) {
+		os.Setenv(kv[0], kv[1])
+		env = append(env, kv[0]+"="+kv[1])
+	}
+	if sp != nil {
+		for _, kv := range sp.env {
+			setenv(kv)
+		}
+	}
+	for _, lp := range lims {
+		for _, kv := range lp.env {
+			setenv(kv)
+		}
+	}
+	limObs = map[string][]string{}
+	var vec string
+	var exported []sdktrace.ReadOnlySpan
+	err, special := guarded(watchdog, func() error {
+		gen := &fixedIDs{}
+		exp := &capSpans{}
+		opts := []sdktrace.TracerProviderOption{sdktrace.WithSyncer(exp), sdktrace.WithIDGenerator(gen)}
+		var optText []string
+		if sp != nil {
+			switch sp.srcs[0].K {
+			case "valid":
+				_, ratio, _ := strings.Cut(sp.srcs[0].V, ":")
+				opts = append(opts, sdktrace.WithSampler(sdktrace.TraceIDRatioBased(ratioVal[ratio])))
+				optText = append(optText, "WithSampler(TraceIDRatioBased("+fmt.Sprint(ratioVal[ratio])+"))")
+			case "nil":
+				opts = append(opts, sdktrace.WithSampler(nil))
+				optText = append(optText, "WithSampler(nil)")
+			}
+		} else {
+			opts = append(opts, sdktrace.WithSampler(sdktrace.AlwaysSample()))
+		}
+		anyOpt := false
+		for _, lp := range lims {
+			anyOpt = anyOpt || lp.hasOpt
+		}
+		if anyOpt {
+			lim := sdktrace.NewSpanLimits()
+			for _, lp := range lims {
+				if !lp.hasOpt {
+					continue
+				}
+				setSpanLimit(&lim, lp.setting, lp.optV)
+				optText = append(optText, fmt.Sprintf("%s=%d", lp.setting, lp.optV))
+			}
+			opts = append(opts, sdktrace.WithRawSpanLimits(lim))
+		}
+		opt = strings.Join(optText, " ")
+		tp := sdktrace.NewTracerProvider(opts...)
+		tr := tp.Tracer("c20")
+		if sp != nil {
+			vec = probeSampler(tr, gen)
+		}
+		exp.spans = nil
+		// the limits span: child of a sampled remote parent with the lowest probe id
+		gen.tid = probeIDs[0].id
+		ctx := trace.ContextWithRemoteSpanContext(context.Background(), trace.NewSpanContext(trace.SpanContextConfig{
+			TraceID: probeIDs[0].id, SpanID: trace.SpanID{5}, TraceFlags: trace.FlagsSampled, Remote: true}))
+		_, span := tr.Start(ctx, "limits")
+		lsc := func(i int) trace.SpanContext {
+			return trace.NewSpanContext(trace.SpanContextConfig{TraceID: trace.TraceID{9, byte(i)}, SpanID: trace.SpanID{9, byte(i)}})
+		}
+		attrs := append([]attribute.KeyValue{attribute.String("long", strings.Repeat("x", offered))}, manyAttrs(offered-1)...)
+		span.SetAttributes(attrs...)
+		// events and links: the newest are kept, so the carriers of the per-event / per-link
+		// attribute observation come last; attributes: the first are kept, "long" comes first
+		for i := 1; i < offered; i++ {
+			span.AddEvent(fmt.Sprintf("e%d", i))
+		}
+		span.AddEvent("e-attrs", trace.WithAttributes(manyAttrs(offered)...))
+		for i := 1; i < offered; i++ {
+			span.AddLink(trace.Link{SpanContext: lsc(i)})
+		}
+		span.AddLink(trace.Link{SpanContext: lsc(0), Attributes: manyAttrs(offered)})
+		span.End()
+		exported = append(exported, exp.spans...)
+		return tp.Shutdown(context.Background())
+	})
+	if special != "" {
+		return special, errText(err), nil, nil, env, opt
+	}
+	if sp != nil {
+		for _, id := range samplerIDs {
+			if samplerVector(id) == vec {
+				samplerObs = append(samplerObs, id)
+			}
+		}
+		if len(samplerObs) == 0 {
+			samplerObs = []string{"?" + vec}
+		}
+		detail = "decisions=" + vec
+	}
+	for _, lp := range lims {
+		if len(exported) != 1 {
+			limObs[lp.setting] = unobs // the configured sampler dropped the span
+			continue
+		}
+		ro := exported[0]
+		n := -1
+		switch lp.setting {
+		case "span.attr_count":
+			n = len(ro.Attributes())
+		case "span.attr_len":
+			for _, a := range ro.Attributes() {
+				if a.Key == "long" {
+					n = len(a.Value.AsString())
+				}
+			}
+		case "span.event_count":
+			n = len(ro.Events())
+		case "span.link_count":
+			n = len(ro.Links())
+		case "span.event_attr_count":
+			for _, e := range ro.Events() {
+				if e.Name == "e-attrs" {
+					n = len(e.Attributes)
+				}
+			}
+		case "span.link_attr_count":
+			for _, l := range ro.Links() {
+				if l.SpanContext.TraceID() == (trace.TraceID{9, 0}) {
+					n = len(l.Attributes)
+				}
+			}
+		}
+		if n < 0 {
+			limObs[lp.setting] = unobs // the carrier (attribute / first event / first link) was dropped by another limit
+		} else {
+			limObs[lp.setting] = conc.absCount(lp.setting, n, offered)
+		}
+		detail += fmt.Sprintf(" %s:kept=%d", lp.setting, n)
+	}
+	return "", detail, samplerObs, limObs, env, opt
+}
+
+func setSpanLimit(lim *sdktrace.SpanLimits, setting string, v int) {
+	switch setting {
+	case "span.attr_count":
+		lim.AttributeCountLimit = v
+	case "span.attr_len":
+		lim.AttributeValueLengthLimit = v
+	case "span.event_count":
+		lim.EventCountLimit = v
+	case "span.link_count":
+		lim.LinkCountLimit = v
+	case "span.event_attr_count":
+		lim.AttributePerEventCountLimit = v
+	case "span.link_attr_count":
+		lim.AttributePerLinkCountLimit = v
+	}
+}
+
+func tracerScenario(r *rand.Rand, conc *Conc, res *vh.Result) []caseObs {
+	sp := planSampler(r, conc)
+	lims := planLimits(r, conc, spanLimitSettings, 60)
+	special, detail, sObs, lObs, env, opt := runTracer(&sp, lims, conc)
+	var out []caseObs
+	if special == "HANG" {
+		res.Inconcl("watchdog expired: tracer scenario env=" + strings.Join(env, " ") + "\n" + detail)
+		return nil
+	}
+	if special == "PANIC" {
+		// attribute the panic: every setting alone, same concrete values
+		res.Count("random.tracer.panic", 1)
+		s1, d1, so, _, e1, o1 := runTracer(&sp, nil, conc)
+		if s1 != "" {
+			so = []string{s1}
+		}
+		out = append(out, caseObs{Fam: "sampler", Comp: "sdk", Setting: "sampler", Srcs: sp.srcs, Obs: so, Detail: d1, Env: e1, Opt: o1})
+		for _, lp := range lims {
+			s2, d2, _, lo, e2, o2 := runTracer(nil, []limPlan{lp}, conc)
+			obs := lo[lp.setting]
+			if s2 != "" {
+				obs = []string{s2}
+			}
+			out = append(out, caseObs{Fam: "scalar", Comp: "sdk", Setting: lp.setting, Srcs: lp.srcs, Obs: obs, Detail: d2, Env: e2, Opt: o2})
+		}
+		return out
+	}
+	out = append(out, caseObs{Fam: "sampler", Comp: "sdk", Setting: "sampler", Srcs: sp.srcs, Obs: sObs, Detail: detail, Env: env, Opt: opt})
+	for _, lp := range lims {
+		out = append(out, caseObs{Fam: "scalar", Comp: "sdk", Setting: lp.setting, Srcs: lp.srcs, Obs: lObs[lp.setting], Detail: detail, Env: env, Opt: opt})
+		if len(lObs[lp.setting]) == 1 && lObs[lp.setting][0] == "unobservable" {
+			res.Count("random.tracer.limit_unobservable", 1)
+		} else {
+			res.Count("random.tracer.limit_observed", 1)
+		}
+	}
+	return out
+}
+
+// ---------------------------------------------------------------- logger provider scenarios
+
+func loggerScenario(r *rand.Rand, conc *Conc, res *vh.Result) []caseObs {
+	lims := planLimits(r, conc, []string{"logrecord.attr_count", "logrecord.attr_len"}, 80)
+	if len(lims) == 0 {
+		lims = planLimits(r, conc, []string{"logrecord.attr_count"}, 100)
+	}
+	clearEnv()
+	defer clearEnv()
+	var env []string
+	var optText []string
+	for _, lp := range lims {
+		for _, kv := range lp.env {
+			os.Setenv(kv[0], kv[1])
+			env = append(env, kv[0]+"="+kv[1])
+		}
+	}
+	proc := &capProc{vlen: -1}
+	err, special := guarded(watchdog, func() error {
+		opts := []sdklog.LoggerProviderOption{sdklog.WithProcessor(proc)}
+		for _, lp := range lims {
+			if !lp.hasOpt {
+				continue
+			}
+			if lp.setting == "logrecord.attr_count" {
+				opts = append(opts, sdklog.WithAttributeCountLimit(lp.optV))
+			} else {
+				opts = append(opts, sdklog.WithAttributeValueLengthLimit(lp.optV))
+			}
+			optText = append(optText, fmt.Sprintf("%s=%d", lp.setting, lp.optV))
+		}
+		lp := sdklog.NewLoggerProvider(opts...)
+		var rec otellog.Record
+		rec.SetBody(otellog.StringValue("b"))
+		kvs := []otellog.KeyValue{otellog.String("long", strings.Repeat("x", offered))}
+		for i := 0; i < offered-1; i++ {
+			kvs = append(kvs, otellog.Int(fmt.Sprintf("k%03d", i), i))
+		}
+		rec.AddAttributes(kvs...)
+		lp.Logger("c20").Emit(context.Background(), rec)
+		return lp.Shutdown(context.Background())
+	})
+	var out []caseObs
+	for _, lp := range lims {
+		var obs []string
+		detail := ""
+		switch {
+		case special == "HANG":
+			res.Inconcl("watchdog expired: logger scenario " + errText(err))
+			obs = unobs
+		case special != "":
+			obs, detail = []string{special}, errText(err)
+		case !proc.seen:
+			obs = []string{"?no-record"}
+		case lp.setting == "logrecord.attr_count":
+			obs, detail = conc.absCount(lp.setting, proc.nattrs, offered), fmt.Sprintf("kept=%d of %d", proc.nattrs, offered)
+		case proc.vlen < 0:
+			obs = unobs
+		default:
+			obs, detail = conc.absCount(lp.setting, proc.vlen, offered), fmt.Sprintf("len=%d of %d", proc.vlen, offered)
+		}
+		out = append(out, caseObs{Fam: "scalar", Comp: "sdk", Setting: lp.setting, Srcs: lp.srcs, Obs: obs, Detail: detail, Env: env, Opt: strings.Join(optText, " ")})
+	}
+	return out
+}
+
+// ---------------------------------------------------------------- batch processor scenarios
+
+// All four variables of the processor are set at once (random kinds, possibly ill-formed); one
+// randomly chosen setting is observed, the others are pinned by explicit valid options so the
+// experiment measures that setting alone: the ill-formed variables of the other settings must
+// not interfere with it.
+func batchScenario(r *rand.Rand, conc *Conc, res *vh.Result, prefix string) []caseObs {
+	settings := []string{prefix + ".queue", prefix + ".batch", prefix + ".timeout", prefix + ".delay"}
+	observed := settings[r.Intn(3)] // queue / batch / timeout (cheap) ...
+	if r.Intn(6) == 0 {
+		observed = settings[3] // ... delay costs up to 1.6 s
+	}
+	clearEnv()
+	defer clearEnv()
+	var env []string
+	var srcs []Src
+	for _, st := range settings {
+		var s Src
+		if st == observed {
+			s = numEnvSrc(r, "S")
+			srcs = []Src{numOptSrc(r), s}
+		} else {
+			s = numEnvSrc(r, "S")
+			// The statement is silent about the documented coupling "batch size <= queue size"
+			// (both processors clamp the batch size by a queue size taken from the environment):
+			// while the batch size is observed the queue-size variable is absent or a value every
+			// implementation has to ignore.
+			for strings.HasSuffix(observed, ".batch") && strings.HasSuffix(st, ".queue") &&
+				(s.K == "valid" || s.K == "padded" || s.K == "neg" || s.K == "zero") {
+				s = numEnvSrc(r, "S")
+			}
+		}
+		if v, ok := conc.envNum(st, s); ok {
+			os.Setenv(sdkEnvNames[st][0], v)
+			env = append(env, sdkEnvNames[st][0]+"="+v)
+		}
+	}
+	optV, hasOpt := conc.optNum(observed, srcs[0])
+	opt := ""
+	if hasOpt {
+		opt = fmt.Sprintf("option(%d)", optV)
+	}
+	obs, detail := observeSDK(observed, optV, hasOpt, conc, true)
+	if len(obs) == 1 && (obs[0] == "HANG" || strings.HasPrefix(obs[0], inconcl)) {
+		res.Inconcl(fmt.Sprintf("%s: %s env=%v %s", observed, obs[0], env, detail))
+		obs = unobs
+	}
+	if len(detail) > 400 {
+		detail = detail[:400]
+	}
+	res.Count("random."+observed, 1)
+	return []caseObs{{Fam: "scalar", Comp: "sdk", Setting: observed, Srcs: srcs, Obs: obs, Detail: detail, Env: env, Opt: opt}}
+}
+
+// ---------------------------------------------------------------- driver
+
 func randomScenario(r *rand.Rand, conc *Conc, res *vh.Result) []map[string]any {
-	return nil
+	var kind, comp string
+	var cases []caseObs
+	t0 := time.Now()
+	switch x := r.Intn(100); {
+	case x < 50:
+		kind = "exporter"
+		comp, cases = exporterScenario(r, conc, res)
+	case x < 70:
+		kind, comp = "tracer", "sdk"
+		cases = tracerScenario(r, conc, res)
+	case x < 80:
+		kind, comp = "logger", "sdk"
+		cases = loggerScenario(r, conc, res)
+	case x < 90:
+		kind, comp = "bsp", "sdk"
+		cases = batchScenario(r, conc, res, "bsp")
+	default:
+		kind, comp = "blrp", "sdk"
+		cases = batchScenario(r, conc, res, "blrp")
+	}
+	res.Count("random.kind."+kind, 1)
+	for _, c := range cases {
+		res.Evaluations++
+		for _, s := range c.Srcs {
+			if s.K != "absent" && s.K != "valid" {
+				res.Count("random.illformed_sources", 1)
+				break
+			}
+		}
+		if len(c.Obs) == 1 && c.Obs[0] == "unobservable" {
+			res.Count("random.unobservable", 1)
+		}
+		if len(c.Obs) == 1 && c.Obs[0] == "PANIC" {
+			res.Count("random.panic_observations", 1)
+		}
+	}
+	if cases == nil {
+		cases = []caseObs{}
+	}
+	return []map[string]any{{"ev": "Cfg", "kind": kind, "comp": comp, "cases": cases, "ms": time.Since(t0).Milliseconds()}}
 }
